@@ -10,6 +10,7 @@ be dispatched after it.  (The liveness half — "never zero times while the loop
 reporting readiness and is exercised by the correspondence check's drain phase, not proven.)
 -/
 import Sonic.Lemmas.LoopAcct
+import Sonic.Props.Ledger
 import Sonic.Lemmas.LoopOnceRun
 
 namespace Sonic.Props.C01
@@ -215,5 +216,22 @@ example : (run {} demo).isSome = true := by decide
 example : startCount 11 demo = 1 ∧ enterCount 11 demo = 1 ∧ startCount 12 demo = 1 ∧ enterCount 12 demo = 1 := by decide
 -- and the model has no transition that would enter 11 a second time
 example : (run {} (demo ++ [.callPoll, .enter 11 .ok 1 [] false])) = none := by decide
+
+/-! ### Over the API-level ledger (`Sonic.Props.Ledger`) -/
+
+/-- **C01 (callbacks only when owed).** See `Sonic.Props.Ledger.C01_callback_only_when_owed`: in every history of the
+model (documented usage), a completion callback is entered only inline in its own starting call or for an operation the
+API-level ledger owes — never twice, never after Close, never after a successful Cancel. -/
+theorem C01_callback_only_when_owed (evs : List Ev) (op : Nat) (res : Res) (n : Int) (data : List UInt8) (early : Bool)
+    (w : World) (l : Sonic.Spec.Ledger.L) (h : run {} (evs ++ [.enter op res n data early]) = some w)
+    (hU : Sonic.Spec.Ledger.UsageOk {} (evs ++ [.enter op res n data early])) (hl : Sonic.Spec.Ledger.run {} evs = some l) :
+    (∃ r rest, (l.stack = .start r false :: rest ∨ l.stack = .sched r false :: rest) ∧ r.id = op) ∨
+    (∃ r, r ∈ l.owed ∧ r.id = op) :=
+  Sonic.Props.Ledger.C01_callback_only_when_owed evs op res n data early w l h hU hl
+
+/-- **C01 / C03 (the model refines the ledger).** -/
+theorem C01_ledger_accepts_model (evs : List Ev) (w : World) (h : run {} evs = some w) (hU : Sonic.Spec.Ledger.UsageOk {} evs) :
+    Sonic.Spec.Ledger.accepts evs = true :=
+  Sonic.Props.Ledger.ledger_accepts_model evs w h hU
 
 end Sonic.Props.C01
